@@ -48,6 +48,13 @@ type CopyParams struct {
 	RegProfile  *RegProfile    `json:"reg_profile,omitempty"` // remote stores: capability profile of the simulated registries
 	MountFrom   bool           `json:"mount_from,omitempty"`  // remote destination: offer the sibling repository as mount source
 	MountPre    []int          `json:"mount_pre,omitempty"`   // blobs the sibling repository of the destination registry holds
+	NetFaults   []NetFaultAt   `json:"net_faults,omitempty"`  // remote stores: failing HTTP exchanges (C02)
+}
+
+// NetFaultAt places a failing HTTP exchange at one of the simulated registries.
+type NetFaultAt struct {
+	Store string   `json:"store"` // src | dst
+	Fault NetFault `json:"fault"`
 }
 
 type copyProp struct {
@@ -191,6 +198,21 @@ func (p *copyProp) Gen(r *Rand, tier string, idx int) any {
 			cp.FaultPicks = append(cp.FaultPicks, r.U64())
 		}
 		cp.Callbacks = r.Chance(0.7)
+		if remote && r.Chance(0.5) {
+			// failing exchanges instead of (or besides) failing storage operations
+			for k := r.Range(1, 2); k > 0; k-- {
+				st := "dst"
+				if cp.SrcKind == "remote" && (cp.DstKind != "remote" || r.Bool()) {
+					st = "src"
+				}
+				cp.NetFaults = append(cp.NetFaults, NetFaultAt{Store: st, Fault: NetFault{
+					Class: pick(r, []string{"manifest", "blob", "upload-start", "upload-put", "manifest", "blob"}), Occur: r.Range(1, 6),
+					Kind: pick(r, []string{"status-500", "transport", "drop-after-apply"})}})
+			}
+			if r.Bool() {
+				cp.NFaults, cp.FaultPicks = 0, nil
+			}
+		}
 	case "C03":
 		cp.API = pick(r, []string{"ExtendedCopy", "ExtendedCopyGraph"})
 		cp.Root = r.Intn(len(g.Nodes))
@@ -526,11 +548,32 @@ func setupStores(rc *RunCtx, g *Graph, cp *CopyParams) (*copyEnv, error) {
 	return &copyEnv{g: g, cp: cp, src: src, dst: dst}, nil
 }
 
-func (env *copyEnv) exec(rc *RunCtx, faults []FaultSpec, checks func(m *Monitor) []func(Event) *Verdict, scratch bool) *copyExec {
+func (env *copyEnv) exec(rc *RunCtx, faults []FaultSpec, checks func(m *Monitor) []func(Event) *Verdict, scratch bool, withNet ...bool) *copyExec {
+	return env.exec2(rc, faults, checks, scratch, len(withNet) > 0 && withNet[0])
+}
+
+func (env *copyEnv) exec2(rc *RunCtx, faults []FaultSpec, checks func(m *Monitor) []func(Event) *Verdict, scratch bool, withNet bool) *copyExec {
 	ex := &copyExec{}
 	g, cp := env.g, env.cp
 	mon := NewMonitor(g)
 	mon.faults = faults
+	for _, bs := range []*builtStore{env.src, env.dst} {
+		if bs.reg != nil {
+			bs.reg.SetFaults(nil)
+			bs.reg.ResetFaultCounters()
+		}
+	}
+	if withNet {
+		for _, nf := range cp.NetFaults {
+			bs := env.dst
+			if nf.Store == "src" {
+				bs = env.src
+			}
+			if bs.reg != nil {
+				bs.reg.faults = append(bs.reg.faults, nf.Fault)
+			}
+		}
+	}
 	for k, ms := range cp.LatencyMs {
 		mon.Latency[k] = time.Duration(ms) * time.Millisecond
 	}
@@ -618,6 +661,11 @@ func (env *copyEnv) exec(rc *RunCtx, faults []FaultSpec, checks func(m *Monitor)
 		return ex
 	}
 	ex.res = simrt.Run(rc.NextConfig(), main)
+	for _, bs := range []*builtStore{env.src, env.dst} {
+		if bs.reg != nil {
+			bs.reg.SetFaults(nil) // the oracles talk to the registries too
+		}
+	}
 	rc.Done(ex.res)
 	rc.Logf("== %s returned err=%v", cp.API, ex.err)
 	return ex
@@ -929,6 +977,9 @@ func (p *copyProp) runInBubble(rc *RunCtx, sc *Scenario, cp *CopyParams, g *Grap
 		// operations of a fault-free run of the same scenario, executed on a
 		// separate pair of stores so that the faulty run starts from the same state.
 		faults := cp.Faults
+		if faults == nil && cp.NFaults == 0 {
+			faults = []FaultSpec{}
+		}
 		if faults == nil {
 			rcA := &RunCtx{T: rc.T, DiskDir: filepath.Join(rc.DiskDir, "phaseA"), sc: sc}
 			envA, err := setupStores(rcA, g, cp)
@@ -957,8 +1008,17 @@ func (p *copyProp) runInBubble(rc *RunCtx, sc *Scenario, cp *CopyParams, g *Grap
 			sc.Params, _ = json.Marshal(cp)
 		}
 		info.CaseHash = simrt.Mix(info.CaseHash, hashJSON(faults))
-		ex := env.exec(rc, faults, closure, false)
+		ex := env.exec(rc, faults, closure, false, true)
 		account(ex)
+		netFired := 0
+		for _, bs := range []*builtStore{env.src, env.dst} {
+			if bs.reg != nil {
+				for k, c := range bs.reg.Fired {
+					info.Faults["http-"+k] += c
+					netFired += c
+				}
+			}
+		}
 		info.Outcome = string(ex.res.Outcome)
 		if v := outcomeCheck(ex, cp.API+" with faults"); v != nil {
 			return v
@@ -975,8 +1035,11 @@ func (p *copyProp) runInBubble(rc *RunCtx, sc *Scenario, cp *CopyParams, g *Grap
 				errFaultFired = true
 			}
 		}
-		if len(ex.mon.fired) > 0 {
+		if len(ex.mon.fired) > 0 || netFired > 0 {
 			info.Nontrivial = true
+		}
+		if netFired > 0 {
+			errFaultFired = true
 		}
 		lower, _, ok := wantSets(env)
 		if ex.err == nil {
